@@ -44,8 +44,81 @@ type Kernel struct {
 	// evicted before use (always legal for a kernel).
 	EvictPct int
 	// OnOp, if set, is called at the entry of every simulated system call.
-	OnOp    func(detail string)
+	OnOp func(detail string)
+	// OnCall, if set, brackets every handler invocation made on behalf of a
+	// simulated process (enter=true before, false after).
+	OnCall  func(enter bool)
 	NoCache bool // bypass the page cache entirely (every read goes to LiteFS)
+
+	// Locks is the kernel's own record of the POSIX locks it granted to
+	// simulated processes (what fcntl returned 0 for), independent of LiteFS.
+	Locks LockTable
+}
+
+// LockTable records granted byte-range locks per (file name, owner).
+type LockTable struct {
+	mu sync.Mutex
+	m  map[string]map[uint64]map[uint64]int // file -> owner -> lock byte -> 1 read / 2 write
+}
+
+// lock bytes that matter (one per SQLite lock; the SHARED range is keyed by its first byte)
+var lockBytes = []struct {
+	b    uint64
+	last uint64
+}{
+	{0x40000000, 0x40000000}, {0x40000001, 0x40000001}, {0x40000002, 0x40000002 + 509},
+	{120, 120}, {121, 121}, {122, 122}, {123, 123}, {124, 124}, {125, 125}, {126, 126}, {127, 127}, {128, 128},
+}
+
+func (lt *LockTable) set(file string, owner uint64, typ fuse.LockType, start, end uint64) {
+	lt.mu.Lock()
+	defer lt.mu.Unlock()
+	if lt.m == nil {
+		lt.m = map[string]map[uint64]map[uint64]int{}
+	}
+	if lt.m[file] == nil {
+		lt.m[file] = map[uint64]map[uint64]int{}
+	}
+	if lt.m[file][owner] == nil {
+		lt.m[file][owner] = map[uint64]int{}
+	}
+	for _, lb := range lockBytes {
+		if start <= lb.last && lb.b <= end {
+			switch typ {
+			case fuse.LockUnlock:
+				delete(lt.m[file][owner], lb.b)
+			case fuse.LockRead:
+				lt.m[file][owner][lb.b] = 1
+			case fuse.LockWrite:
+				lt.m[file][owner][lb.b] = 2
+			}
+		}
+	}
+}
+
+func (lt *LockTable) drop(file string, owner uint64) {
+	lt.mu.Lock()
+	defer lt.mu.Unlock()
+	if lt.m != nil && lt.m[file] != nil {
+		delete(lt.m[file], owner)
+	}
+}
+
+// Held returns a copy of the locks granted on a file: owner -> lock byte -> mode.
+func (lt *LockTable) Held(file string) map[uint64]map[uint64]int {
+	lt.mu.Lock()
+	defer lt.mu.Unlock()
+	out := map[uint64]map[uint64]int{}
+	for o, m := range lt.m[file] {
+		if len(m) == 0 {
+			continue
+		}
+		out[o] = map[uint64]int{}
+		for b, v := range m {
+			out[o][b] = v
+		}
+	}
+	return out
 }
 
 const kpage = 4096
@@ -137,6 +210,10 @@ func errno(err error) syscall.Errno {
 // call runs a handler, recovering panics the way bazil's server does (logged,
 // answered with EIO). A node exit (Store.Exit) unwinds through here too.
 func (k *Kernel) call(what string, fn func() error) (e syscall.Errno) {
+	if oc := k.OnCall; oc != nil {
+		oc(true)
+		defer oc(false)
+	}
 	defer func() {
 		if rec := recover(); rec != nil {
 			if _, ok := rec.(nodeExit); ok {
@@ -561,13 +638,19 @@ func (f *File) Lock(typ fuse.LockType, start, end uint64) syscall.Errno {
 	}
 	fl := fuse.FileLock{Start: start, End: end, Type: typ}
 	if typ == fuse.LockUnlock {
+		// the kernel drops its record first: LiteFS may act on the release at once
+		k.Locks.set(f.Name, uint64(f.owner), typ, start, end)
 		return k.call("unlock", func() error {
 			return lk.Unlock(context.Background(), &fuse.UnlockRequest{LockOwner: f.owner, Lock: fl})
 		})
 	}
-	return k.call("lock", func() error {
+	e := k.call("lock", func() error {
 		return lk.Lock(context.Background(), &fuse.LockRequest{LockOwner: f.owner, Lock: fl})
 	})
+	if e == 0 {
+		k.Locks.set(f.Name, uint64(f.owner), typ, start, end)
+	}
+	return e
 }
 
 // LockWait issues a blocking lock request (F_SETLKW) with a cancellable context.
@@ -608,6 +691,7 @@ func (f *File) Close() syscall.Errno {
 	f.closed = true
 	k := f.k
 	k.yield("close " + f.Name)
+	k.Locks.drop(f.Name, uint64(f.owner))
 	var e syscall.Errno
 	if fl, ok := f.h.(fs.HandleFlusher); ok {
 		e = k.call("flush", func() error { return fl.Flush(context.Background(), &fuse.FlushRequest{LockOwner: f.owner}) })
